@@ -1221,6 +1221,24 @@ def _h(v):
     return _hashable(v)
 
 
+class _LazyKey:
+    """Sort key evaluated only when the comparison actually reaches this tuple position."""
+
+    __slots__ = ("v",)
+
+    def __init__(self, v):
+        self.v = v
+
+    def __eq__(self, o):
+        try:
+            return _sortkey(self.v) == _sortkey(o.v)
+        except TypeError:
+            return self.v is o.v
+
+    def __lt__(self, o):
+        return _sortkey(self.v) < _sortkey(o.v)
+
+
 def _sortkey(v):
     if isinstance(v, EnumMember):
         return v.value
@@ -1231,7 +1249,7 @@ def _sortkey(v):
     if isinstance(v, IntSym):
         return v.value
     if isinstance(v, tuple):
-        return tuple(_sortkey(x) for x in v)
+        return tuple(_LazyKey(x) for x in v)
     if isinstance(v, (np.ndarray, Opaque)):
         raise TypeError("unsortable")
     return v
